@@ -3815,7 +3815,13 @@ func (e *enterFunc) exec(vm *vm) {
 	ea := 0
 	if e.argsToStash {
 		offset := vm.args - int(e.numArgs)
-		copy(stash.values, vm.stack[sp-vm.args:sp])
+		// only the declared parameters live in the stash; surplus arguments go to extraArgs and must not
+		// spill into the slots of the variables that follow the parameters
+		n := vm.args
+		if offset > 0 {
+			n = int(e.numArgs)
+		}
+		copy(stash.values, vm.stack[sp-vm.args:sp-vm.args+n])
 		if offset > 0 {
 			vm.stash.extraArgs = make([]Value, offset)
 			copy(stash.extraArgs, vm.stack[sp-offset:])
